@@ -313,6 +313,104 @@ func arith(e ast.Expr, param string) (string, bool) {
 	return "", false
 }
 
+
+// ---- structure lock discipline of topics/memlockfree/node.go ----
+// A "writer" is a method that (directly) calls leafInsertNode or nodesCleanup, or stores into a node's maps /
+// retained slot. It is "locked" iff, apart from declarations and assignments that touch neither the receiver
+// nor a node, its first two statements are  <recv>.structure.Lock()  and  defer <recv>.structure.Unlock().
+// leafInsertNode and nodesCleanup themselves are helpers: they must have no caller that is not locked.
+
+func selChain(e ast.Expr) string {
+	switch x := e.(type) {
+	case *ast.Ident:
+		return x.Name
+	case *ast.SelectorExpr:
+		return selChain(x.X) + "." + x.Sel.Name
+	case *ast.CallExpr:
+		return selChain(x.Fun) + "()"
+	}
+	return "?"
+}
+
+func writesStructure(n ast.Node) bool {
+	found := false
+	ast.Inspect(n, func(x ast.Node) bool {
+		if c, ok := x.(*ast.CallExpr); ok {
+			ch := selChain(c.Fun)
+			for _, suf := range []string{".leafInsertNode", ".nodesCleanup", ".retained.Store", ".subs.LoadOrStore", ".subs.Delete", ".subs.Store", ".children.Delete", ".children.LoadOrStore", ".children.Store"} {
+				if strings.HasSuffix(ch, suf) {
+					found = true
+				}
+			}
+		}
+		return true
+	})
+	return found
+}
+
+func touchesState(n ast.Node, recv string) bool {
+	found := false
+	ast.Inspect(n, func(x ast.Node) bool {
+		if c, ok := x.(*ast.CallExpr); ok {
+			ch := selChain(c.Fun)
+			if strings.HasPrefix(ch, recv+".") || strings.Contains(ch, ".subs.") || strings.Contains(ch, ".children.") || strings.Contains(ch, ".retained.") {
+				found = true
+			}
+		}
+		return true
+	})
+	return found
+}
+
+func lockDiscipline(f *ast.File) (map[string]bool, bool) {
+	res := map[string]bool{}
+	helpers := map[string]bool{"leafInsertNode": true, "nodesCleanup": true}
+	ok := true
+	for _, d := range f.Decls {
+		fd, isFn := d.(*ast.FuncDecl)
+		if !isFn || fd.Recv == nil || len(fd.Recv.List) != 1 || len(fd.Recv.List[0].Names) != 1 || fd.Body == nil {
+			continue
+		}
+		if helpers[fd.Name.Name] || !writesStructure(fd.Body) {
+			continue
+		}
+		// methods of the provider only (node.getRetained clears an EXPIRED message from the read path; it
+		// never unlinks anything)
+		if st, isStar := fd.Recv.List[0].Type.(*ast.StarExpr); !isStar || selChain(st.X) != "provider" {
+			continue
+		}
+		recv := fd.Recv.List[0].Names[0].Name
+		locked := false
+		stmts := fd.Body.List
+		for i, st := range stmts {
+			if es, isE := st.(*ast.ExprStmt); isE && selChain(es.X) == recv+".structure.Lock()" {
+				if i+1 < len(stmts) {
+					if ds, isD := stmts[i+1].(*ast.DeferStmt); isD && selChain(ds.Call) == recv+".structure.Unlock()" {
+						locked = true
+					}
+				}
+				break
+			}
+			switch st.(type) {
+			case *ast.AssignStmt, *ast.DeclStmt:
+				if touchesState(st, recv) {
+					goto done
+				}
+			default:
+				goto done
+			}
+		}
+	done:
+		res[fd.Name.Name] = locked
+	}
+	for _, want := range []string{"subscriptionInsert", "subscriptionRemove", "retainInsert", "retainRemove"} {
+		if _, have := res[want]; !have {
+			ok = false
+		}
+	}
+	return res, ok
+}
+
 func main() {
 	repo := flag.String("repo", "/repo", "repository root")
 	out := flag.String("out", "", "output .v file")
@@ -388,6 +486,23 @@ func main() {
 		w("  (\"%s\", [%s])%s\n", s, strings.Join(q, "; "), sep)
 	}
 	w("].\nDefinition expected_packet_type_found : bool := %v.\n", ok)
+
+	// ---- structure lock of the lock-free topic index
+	ld, ldok := lockDiscipline(parse(filepath.Join(*repo, "topics/memlockfree/node.go")))
+	var names []string
+	for n := range ld {
+		names = append(names, n)
+	}
+	sort.Strings(names)
+	w("\nDefinition lf_writers : list (string * bool) := [")
+	for i, n := range names {
+		if i > 0 {
+			w("; ")
+		}
+		w("(\"%s\", %v)", n, ld[n])
+	}
+	w("].\nDefinition lf_writers_found : bool := %v.\n", ldok)
+	w("Definition lf_writers_locked : bool := lf_writers_found && forallb snd lf_writers.\n")
 
 	if *out == "" {
 		fmt.Print(sb.String())
